@@ -14,3 +14,5 @@ import PMH.Props.C09
 #print axioms PMH.C09.optimal_finishing_fuel_bound
 #print axioms PMH.C09.reverse_finishing_terminates_almost_surely
 #print axioms PMH.C09.reverse_finishing_fuel_bound
+#print axioms PMH.C09.model_u32_view_is_murmur_of_u64_view
+#print axioms PMH.C09.model_u64_equal_u32_equal
